@@ -14,8 +14,14 @@ class FakeJoystick:
         self.level = False
         self.reads = 0
 
+    TRUTHY = [True, 1, 2, 0.5, "pressed", [0]]
+    FALSY = [False, 0, 0.0, None, "", []]
+    odd = False  # a duck-typed input that reports "pressed" with varying truthy values (a count, an analog pressure)
+
     def getRawButton(self, n):
         self.reads += 1
+        if self.odd:
+            return (self.TRUTHY if self.level else self.FALSY)[self.reads % 6]
         return self.level
 
 
@@ -58,11 +64,11 @@ def decode(code):
     k = code[0]
     if k == "toggle":
         _, deb, p, samples, t0 = code
-        return {"k": "toggle", "period_us": PERIODS_US[p] if deb else None, "t0": T0[t0],
+        return {"k": "toggle", "period_us": PERIODS_US[p] if deb else None, "t0": T0[t0], "odd_levels": t0 == 1,
                 "samples": [[adv_of(a, f), lv >= 2, ["get", "on", "off", "bool"][acc]] for a, f, lv, acc in samples]}
     if k == "debouncer":
         _, p, samples, t0 = code
-        return {"k": "debouncer", "period_us": PERIODS_US[p], "t0": T0[t0],
+        return {"k": "debouncer", "period_us": PERIODS_US[p], "t0": T0[t0], "odd_levels": t0 == 1,
                 "samples": [[adv_of(a, f), lv >= 1, (["get", "bool"][x % 2] if x < 15 else "set_period")] for a, f, lv, x in samples]}
     if k == "filter":
         _, p, byp, recs, t0 = code
@@ -126,6 +132,7 @@ class C19(Lab):
         simenv.clock_reset()
         simenv.advance(case["t0"])
         joy = FakeJoystick()
+        joy.odd = bool(case.get("odd_levels"))
         period = case["period_us"]
         tg = Toggle(joy, 3, period * 1e-6) if period is not None else Toggle(joy, 3)
         state = False  # model
@@ -185,6 +192,7 @@ class C19(Lab):
         simenv.clock_reset()
         simenv.advance(case["t0"])
         joy = FakeJoystick()
+        joy.odd = bool(case.get("odd_levels"))
         pd = case["period_us"] * 1e-6
         db = ButtonDebouncer(joy, 2, period=pd)
         last_true = 0.0  # "since clock 0 when there was none" - the weakest reading
